@@ -17,7 +17,7 @@ RULE = (
     "strided view, read-only) once uncached and once cached, plus graph=True, solve_axes/solve_shapes/matches on the same arguments, list/ndarray keyword sizes, "
     "wrong-arity calls of fixed-arity scalar ops, and 40 fixed calls of all families on tensors of >= 2**16 elements (coordinate dtypes int64/int32/intp, 3 backends, 2 layouts); distinct by (op, layout, skeleton); non-trivial if a non-contiguous or read-only layout is involved"
 )
-ASSUMPTIONS = ["the first tensor of set_at/add_at/subtract_at (and any alias of it) is exempt", "a 'destination is read-only' failure on a non-exempt argument counts as a write attempt"]
+ASSUMPTIONS = ["the first tensor of set_at/add_at/subtract_at (and any alias of it) is exempt as to its contents when it is writeable; its flags, shape and dtype are not exempt (also for a read-only target, where the call may fail)", "a 'destination is read-only' failure on a non-exempt argument counts as a write attempt"]
 TIMEOUT = {"quick": 900, "thorough": 7200}
 
 
@@ -27,7 +27,7 @@ def shards(tier, seed, scale):
     return [{"n": per, "maxlen": 4} for _ in range(n)]
 
 
-def guarded(out, label, fn, args, kwargs, exempt=(), case_json=None):
+def guarded(out, label, fn, args, kwargs, exempt=(), case_json=None, write_attempt_ok=()):
     """Run fn under the sanitizer; report changes and read-only write attempts."""
     from ..argsan import Guard
     out.evaluation()
@@ -39,7 +39,7 @@ def guarded(out, label, fn, args, kwargs, exempt=(), case_json=None):
             status = "exc"
             msg = str(e)
             if "read-only" in msg or "readonly" in msg:
-                ro = [i for i, a in enumerate(args) if isinstance(a, np.ndarray) and not a.flags.writeable and i not in exempt]
+                ro = [i for i, a in enumerate(args) if isinstance(a, np.ndarray) and not a.flags.writeable and i not in exempt and i not in write_attempt_ok]
                 if ro:
                     out.violation({"kind": "write-attempt-on-readonly-argument", "label": label.split(":")[0]}, {"label": label, "case": case_json, "message": msg[:300]}, f"{label}: write attempt on a read-only argument: {msg[:120]}")
     for pos, what in g.changed:
@@ -70,8 +70,15 @@ def run(spec, out):
             out.sample({"layout": layout, **cj})
         exempt = {0} if case.family == "update" else set()
         tensors = [relayout(t, layout) for t in case.tensors]
+        ro_target = False
         if case.family == "update" and layout == "readonly":
-            tensors[0] = np.array(case.tensors[0], copy=True)  # the target may legitimately be written
+            if rng.random() < 0.5:
+                tensors[0] = np.array(case.tensors[0], copy=True)  # the target may legitimately be written
+            else:
+                # a read-only target: numpy may refuse the write (an error is fine; np.add.at / np.subtract.at do write through the flag, which
+                # is numpy's doing and within the documented exception); the target's flags, shape and dtype stay as they were
+                ro_target = True
+                out.count("readonly_update_targets")
         kw = case.call_kwargs()
         # keyword sizes as mutable containers
         kw2 = {}
@@ -87,8 +94,11 @@ def run(spec, out):
         bk = {} if b is None else {"backend": b}
         desc = case.desc()
         # uncached, then cached
-        guarded(out, f"{case.op}:first", lambda: f(desc, *tensors, **kw2, **bk), tensors, kw2, exempt, cj)
-        guarded(out, f"{case.op}:cached", lambda: f(desc, *tensors, **kw2, **bk), tensors, kw2, exempt, cj)
+        # with a read-only target numpy's refusal concerns the target; which argument a "read-only" error refers to cannot be told from the message,
+        # so that monitor is off for these calls (it is on for the other half, where the target is writeable)
+        wok = tuple(range(len(tensors))) if ro_target else ()
+        guarded(out, f"{case.op}:first", lambda: f(desc, *tensors, **kw2, **bk), tensors, kw2, exempt, cj, write_attempt_ok=wok)
+        guarded(out, f"{case.op}:cached", lambda: f(desc, *tensors, **kw2, **bk), tensors, kw2, exempt, cj, write_attempt_ok=wok)
         guarded(out, f"{case.op}:graph", lambda: f(desc, *tensors, graph=True, **kw2, **bk), tensors, kw2, set(), cj)
         # solve_* / matches on the input expressions
         indesc = desc.split("->")[0]
@@ -137,6 +147,19 @@ def run(spec, out):
                     st = guarded(out, f"{op}:large", lambda: f(d, *ts, **kw, **bk), ts, kw, exempt, cjb)
                     if st == "ok":
                         out.count("large_tensor_calls_ok")
+    # read-only targets of the three update ops, 1-D and 2-D, scalar and tensor coordinates: the flags stay
+    for op in ("set_at", "add_at", "subtract_at"):
+        for d, mk in (("[h], p, p -> [h]", lambda: [np.arange(5.0), np.array([1, 3]), np.array([10.0, 20.0])]),
+                      ("[h], , -> [h]", lambda: [np.arange(5.0), np.array(2), np.array(7.0)]),
+                      ("b [h], b p, b p -> b [h]", lambda: [np.arange(10.0).reshape(2, 5), np.array([[1, 3], [0, 0]]), np.ones((2, 2))]),
+                      ("[h] c, p, p c -> [h] c", lambda: [np.arange(10.0).reshape(5, 2), np.array([1, 3]), np.ones((2, 2))])):
+            for b in (None, "numpy.numpylike"):
+                ts = mk()
+                ts[0].setflags(write=False)
+                bk = {} if b is None else {"backend": b}
+                out.distinct_key(f"readonly-target|{op}|{d}|{b}")
+                out.count("readonly_update_targets")
+                guarded(out, f"{op}:readonly-target", lambda: getattr(einx, op)(d, *ts, **bk), ts, {}, {0}, {"op": op, "desc": d, "backend": b}, write_attempt_ok=(0,))
     # wrong-arity calls of fixed-arity scalar ops: an extra tensor must not be written
     binary = ["subtract", "true_divide", "floor_divide", "divide", "less", "less_equal", "greater", "greater_equal", "equal", "not_equal"]
     for op in binary:
@@ -159,6 +182,8 @@ def finalize(agg, tier, seed):
             agg.inconclusive.append(f"layout {lay} observed only {c.get(f'layout:{lay}', 0)} times")
     if c.get("large_tensor_calls_ok", 0) < 100:
         agg.inconclusive.append(f"only {c.get('large_tensor_calls_ok', 0)} successful calls with large tensors")
+    if c.get("readonly_update_targets", 0) < 20:
+        agg.inconclusive.append(f"only {c.get('readonly_update_targets', 0)} update calls with a read-only target")
     if c.get("status:ok", 0) < 500:
         agg.inconclusive.append("fewer than 500 successful guarded calls")
     return {"layouts": {k[7:]: int(v) for k, v in c.items() if k.startswith("layout:")}}
